@@ -53,12 +53,12 @@ def pools_for(nq, tier):
     return out
 
 
-def random_cases(n, seed, nq=5, nt=7):
+def random_cases(n, seed, nq=5, nt=7, eps_all=False):
     rnd = random.Random(seed)
     cases = []
     for _ in range(n):
         kind = rnd.choice(["enfa", "enfa", "nfa", "dfa"])
-        labels = ["a", "b"] + (["eps"] if kind == "enfa" else [])
+        labels = ["a", "b"] + (["eps"] if kind == "enfa" or eps_all else [])
         calls = []
         for _ in range(rnd.randint(1, nt)):
             calls.append(["add_transition", "q%d" % rnd.randrange(nq), rnd.choice(labels), "q%d" % rnd.randrange(nq)])
@@ -135,6 +135,9 @@ def generate(tier, seed, work, stats):
     for c in random_cases(1500 if tier == "quick" else 15000, seed + 21, nq=6, nt=9):
         cases.append(dict(c, spool="suffix", family="random-suffix-names"))
     cases += suffix_cases(1500 if tier == "quick" else 15000, seed + 23)
+    # epsilon written as the string "epsilon" / the glyph: free moves for an epsilon-NFA, refused by NFA and DFA
+    for i, c in enumerate(random_cases(900 if tier == "quick" else 9000, seed + 24, nq=4, nt=6, eps_all=True)):
+        cases.append(dict(c, ypool=("ab-epsilon-word", "ab-epsilon-glyph", "ab")[i % 3], family="random-epsilon-spellings"))
     for c in random_cases(500 if tier == "quick" else 5000, seed + 22, nq=4, nt=7):
         cases.append(dict(c, ypool="neg", family="random-negative-symbols"))
     return with_ctor(cases)
